@@ -102,6 +102,75 @@ def ob_reseat_grid(positions, M, ctx, entry="static"):
         ctx.check("reseat-again.same-timeline", ctx.all(*[ctx.all(ctx.eq(a, b), ctx.eq(x.bpm, y.bpm), x.metronome == y.metronome) for a, b, x, y in zip(t1, t2, res, res2)]))
 
 
+def ob_reseat_mixed(changes, ctx, entry="static"):
+    """changes: [(measure, beat, metronome)] with different metronomes; the beats between two changes are counted with the earlier
+    change's metronome (as TimingMap does).  entry 'offsets-reseat()' builds the map from millisecond offsets and reseats it."""
+    from .c10 import _abs_beats
+
+    TimingMap, BCS, BCO, Snap, Snapper = _tm()
+    n = len(changes)
+    Ls = ctx.reals("L", n)
+    for L in Ls:
+        ctx.assume(L > 0)
+    off = ctx.real("off")
+    pos = _abs_beats(changes)
+    ts = _times(pos, None, Ls, off)
+    if entry == "static":
+        bcs = []
+        for j, ((m, b, M), L) in enumerate(zip(changes, Ls)):
+            sn = Snap(m, F(b), changes[j - 1][2] if j else M)  # the beat counts inside a measure of the previous change
+            sn.metronome = M
+            bcs.append(BCS(_bpm(L), M, sn))
+        res = TimingMap.reseat_bpm_changes_snap(bcs)
+    else:
+        tm = TimingMap.from_bpm_changes_offset([BCO(_bpm(L), M, t) for (m, b, M), L, t in zip(changes, Ls, ts)]).reseat()
+        got = [c.offset for c in tm.bpm_changes_offset]
+        for j, t in enumerate(ts):
+            ctx.check("offsets-reseat().original%d.still-a-tempo-point" % j, ctx.any(*[ctx.eq(x, t) for x in got]), note="original change %d" % j)
+        res = tm.bpm_changes_snap()
+    ctx.check("reseat.every-change-on-a-measure-line", ctx.all(*[ctx.eq(r.snap.beat, 0) for r in res]))
+    rt = _seated_times(ctx, res, off)
+    for j, t in enumerate(ts):
+        ctx.check("reseat.original%d.still-a-tempo-point" % j, ctx.any(*[ctx.eq(x, t) for x in rt]), note="original change %d" % j)
+    ctx.check("reseat.at-most-one-insert-per-interval", 0 <= len(res) - n <= n - 1, note="%d original, %d returned" % (n, len(res)))
+    for j, t in enumerate(ts):
+        whole = j + 1 == n or ((pos[j + 1] - pos[j]) / changes[j][2]).denominator == 1
+        if whole:
+            ctx.check("reseat.original%d.keeps-its-bpm-and-metronome" % j, ctx.any(*[ctx.all(ctx.eq(x, t), ctx.eq(r.bpm * Ls[j], 60000), r.metronome == changes[j][2]) for r, x in zip(res, rt)]))
+    res2 = TimingMap.reseat_bpm_changes_snap(res)
+    t1, t2 = _seated_times(ctx, res, off), _seated_times(ctx, res2, off)
+    ctx.check("reseat-again.same-timeline", len(res2) == len(res) and ctx.all(*[ctx.all(ctx.eq(a, b), ctx.eq(x.bpm, y.bpm), x.metronome == y.metronome) for a, b, x, y in zip(t1, t2, res, res2)]))
+
+
+def ob_bms_read_seated(tname, ctx):
+    """reseat on read: the tempo list of a BMS chart read from a file with mid-measure tempo changes (and no channel-02 line) lies on
+    measure lines: consecutive tempo points are a whole number of the earlier point's measures apart"""
+    from reamber.bms import BMSMap
+    from . import c04
+
+    lines, L = c04.build(ctx, "BME", c04.note_sets(8)["hits"], c04.TEMPO_SETS[tname])
+    m = BMSMap.read(lines, note_channel_config=c04.layout("BME"))
+    df = m.bpms.df
+    pts = sorted(zip(list(df["offset"]), list(df["bpm"]), list(df["metronome"])), key=lambda p: 0)
+    ts = [p[0] for p in pts]
+    ctx.check("bms-read.tempo-points-in-time-order", ctx.all(*[ctx.le(a, b) for a, b in zip(ts, ts[1:])]))
+    for i, ((t0, bpm0, M0), (t1, _b, _M)) in enumerate(zip(pts, pts[1:])):
+        ratio = (t1 - t0) * bpm0 / (60000 * M0)
+        c = ratio.const() if isinstance(ratio, SymNum) else F(ratio).limit_denominator(10**6)
+        ctx.check("bms-read.tempo-point%d.whole-measures-after-its-predecessor" % (i + 1), c is not None and F(c).denominator == 1, note="%r measures" % (ctx.value(ratio),))
+
+
+MIXED_SETS = [
+    [(0, 0, 4), (1, 2, 3), (4, 0, 3)],
+    [(0, 0, 4), (2, 1, 3)],
+    [(0, 0, 3), (1, 1, 4), (3, 2, 4)],
+    [(0, 0, 6), (0, 4, 3), (2, 0, 3)],
+    [(0, 0, 6), (1, 4, 3)],
+    [(0, 0, 5), (1, 0, 4), (1, F(5, 2), 3), (3, 0, 3)],
+    [(0, 0, 4), (0, 2, 7), (1, 3, 2)],
+]
+
+
 def ob_reseat_free(L0, lo, hi, M, ctx):
     """second change at a free symbolic beat position p in [lo, hi) (concrete first tempo): walks the extend branches."""
     TimingMap, BCS, BCO, Snap, Snapper = _tm()
@@ -180,6 +249,12 @@ def obligations(tier, seed):
         for pos in [(F(0), F(2)), (F(0), F(1, 2), F(6)), (F(0), F(4), F(5)), (F(0), F(7, 2), F(15, 2), F(12))]:
             pn = ",".join(str(p) for p in pos)
             obs.append(Obligation("C11/%s/%s" % (entry, pn), partial(ob_reseat_grid, pos, 4, entry=entry), bound=B % (pn, 4, entry)))
+    for si, ch in enumerate(MIXED_SETS):
+        for entry in ("static", "offsets-reseat()"):
+            obs.append(Obligation("C11/mixed-metronomes/set%d/%s" % (si, entry), partial(ob_reseat_mixed, ch, entry=entry),
+                                  bound="tempo changes %s (measure, beat, beats per measure), symbolic beat lengths and offset; entry point %s" % (ch, entry)))
+    for tname in ("ext-mid", "int+ext", "two-in-line", "48th", "ext-measure-line"):
+        obs.append(Obligation("C11/bms-read/tempo=%s" % tname, partial(ob_bms_read_seated, tname), bound="BMSMap.read of a file with tempo lines %s (no channel 02): tempo list on measure lines" % (tname,)))
     # one free symbolic position for the second change
     pieces = [(F(0), F(1, 2)), (F(1, 2), F(4)), (F(4), F(4) + F(1, 100)), (F(4) + F(1, 100), F(8)), (F(8), F(8) + F(1, 100)), (F(8) + F(1, 100), F(12))]
     for lo, hi in pieces:
